@@ -618,10 +618,56 @@ pub fn gen_case(seed: u64, shard: u64, run: u64, t: &Tier) -> Case {
             cell.parallelogram = Some((scaling, driven, coupled));
         }
     }
+    {
+        // a base and / or tool transform that is a pure rotation (a ceiling-mounted robot above
+        // the origin, a turned gripper with the tool centre point on the flange)
+        let mut tf = Rng::derive(seed, shard, run, "c11.pure-rotation");
+        if tf.chance(0.12) {
+            if let Some(b) = cell.base_tf.as_mut() {
+                if tf.chance(0.7) {
+                    b.t = [0.0; 3];
+                    if b.rpy == [0.0; 3] {
+                        b.rpy = [std::f64::consts::PI, 0.0, tf.range_f64(-1.0, 1.0)];
+                    }
+                }
+            }
+            if let Some(tl) = cell.tool_tf.as_mut() {
+                if tf.chance(0.7) {
+                    tl.t = [0.0; 3];
+                    if tl.rpy == [0.0; 3] {
+                        tl.rpy = [tf.range_f64(-0.5, 0.5), tf.range_f64(-0.5, 0.5), tf.range_f64(-3.0, 3.0)];
+                    }
+                }
+            }
+        }
+    }
     cell.safety = match ctor {
         Ctor::New(first) => SafetySpec::touch(if first { Mode::First } else { Mode::All }),
         _ => gen::gen_safety(&mut w, cell.tool.is_some(), cell.base.is_some(), k.max_env, false, k.sparse),
     };
+    if !matches!(ctor, Ctor::New(_)) {
+        // the robot gets a CLONE of the table now and then; and per-pair entries whose value
+        // happens to equal one of the two defaults (an entry is an entry: for a part / obstacle
+        // pair the default it overrides is the environment distance, not the robot one). They are
+        // put in BEFORE the obstacles are placed, so that grazing obstacles graze at that distance.
+        let mut cs = Rng::derive(seed, shard, run, "c11.safety-clone");
+        cell.clone_safety = cs.chance(0.3);
+        if cs.chance(0.3) && cell.safety.to_robot > NEVER && cell.safety.to_env > NEVER {
+            // every robot part against the first one or two obstacles
+            let mut parts: Vec<usize> = (0..6).collect();
+            if cell.tool.is_some() {
+                parts.push(J_TOOL);
+            }
+            for o in 0..cs.range_usize(1, 2) {
+                let obj = ENV0 + o;
+                let v = if cs.chance(0.7) { cell.safety.to_robot } else { cell.safety.to_env };
+                for &part in &parts {
+                    cell.safety.special.retain(|e| !((e.0 as usize, e.1 as usize) == (part, obj) || (e.0 as usize, e.1 as usize) == (obj, part)));
+                    cell.safety.special.push((part as u16, obj as u16, v));
+                }
+            }
+        }
+    }
     let anchor = gen::gen_posture(&mut w, &cell.limits);
     gen::add_environment(&mut w, &mut cell, &anchor, &k);
     if matches!(ctor, Ctor::New(_)) {
